@@ -15,3 +15,31 @@ package pstoremgr
 //@   loop 1 (for scanner.Scan())
 //@     invariant forall i int :: 0 <= i && i < len(addrs) ==> addrs[i] != nil
 //@   modifies nothing
+
+// ---- "reads back as the same addresses in the same priority order, and unparsable lines are skipped rather than fatal" ----
+// importN: addresses handed to ImportPeer so far; prioN: priorities set; lastPrio: the priority last set
+//@ ghost var importN int
+//@ ghost var prioN int
+//@ ghost var lastPrio int
+//@ ghost var lastPrioPeer peer.ID
+
+// assumed (not verified): importing one address (talks to the libp2p peerstore, resolves DNS)
+//@ func (pm *Manager) ImportPeer
+//@   opts trusted
+//@   ensures importN == old(importN) + 1
+//@   modifies importN
+//@ func (pm *Manager) SetPriority
+//@   opts trusted
+//@   ensures prioN == old(prioN) + 1 && lastPrio == prio && lastPrioPeer == pid
+//@   modifies prioN, lastPrio, lastPrioPeer
+
+// every address of the list is offered for import whatever happened to the ones before it, an unusable address is
+// not an error, and an imported peer's priority is its position in the list
+//@ func (pm *Manager) ImportPeers
+//@   property C14
+//@   ensures [never-fatal] err == nil
+//@   ensures [every-address-offered] importN == old(importN) + len(addrs)
+//@   at_call Manager.SetPriority assert [priority-is-the-position] prio == i
+//@   loop 1 (range addrs)
+//@     invariant importN == old(importN) + idx1
+//@   modifies importN, prioN, lastPrio, lastPrioPeer
